@@ -192,6 +192,10 @@ class Formula:
         return Rat(p_sym(self.rename.get(text, text)))
 
     def parse(self, e: ast.expr) -> Rat:
+        if self.rename and not isinstance(e, ast.Constant):
+            whole = strip_v(ast.unparse(e)).replace(" ", "")
+            if whole in self.rename:
+                return Rat(p_sym(self.rename[whole]))
         if isinstance(e, ast.Constant):
             if isinstance(e.value, bool) or not isinstance(e.value, (int, float)):
                 raise Unrecognised(f"non-numeric constant {e.value!r}")
